@@ -23,7 +23,11 @@ from ..netgen import MODEL_PARAMS, all_specs, harness_specs
 from ..parallel import run_shards, shards_of
 from ..spec import NetSpec, build, default_order
 from .. import valgen
-from .c03 import PSYM, PVAL, uniform_param_spec
+from .c03 import PSYM as _PSYM3, PVAL as _PVAL3, uniform_param_spec
+
+# C04 declares one more parameter that enters nothing: a declared parameter is an argument whether used or not
+PSYM = _PSYM3 + ("spare",)
+PVAL = dict(_PVAL3, spare=3.25)
 
 INIT_OPTS = {"positive_init_speed": True, "positive_init_density": True, "positive_init_queue": True}
 
@@ -80,7 +84,7 @@ def compile_variant(spec, order, sym, compact, more_out, symbolic, opts, P, hist
     override = None
     if symbolic:
         syms = {p: XX.sym(p) for p in PSYM}
-        override = {(f"L{i}", p): syms[p] for i in range(len(spec.links)) for p in PSYM}
+        override = {(f"L{i}", p): syms[p] for i in range(len(spec.links)) for p in _PSYM3}
     built = build(spec, order=order, override=override)
     o = INIT_OPTS if opts else {}
     if hist in (0, 1):
